@@ -81,12 +81,18 @@ for c in cases:
         mod = importlib.import_module(c["module"])
         for version in c["versions"]:
             key = "v%d" % version
-            plain = pt.compileTeal(mod.program(), pt.Mode.Application, version=version)
+            # compile options that change the text (constant assembly, the type-tracking pragma) must act alike
+            # with and without a source map
+            ckw = dict(c.get("compile_kw") or {})
+            plain = pt.compileTeal(mod.program(), pt.Mode.Application, version=version, **ckw)
             rec[key] = {"plain": plain}
             if not GATE:
                 continue
             for ann in c["annotate"]:
-                comp = pt.Compilation(mod.program(), pt.Mode.Application, version=version)
+                okw = dict(ckw)
+                if "assembleConstants" in okw:
+                    okw["assemble_constants"] = okw.pop("assembleConstants")
+                comp = pt.Compilation(mod.program(), pt.Mode.Application, version=version, **okw)
                 try:
                     res = comp.compile(with_sourcemap=True, **KW[ann])
                 except Exception as e:
@@ -244,7 +250,8 @@ def check_result(case, files, markers, on, off, viol, rep):
         marker_lines = {}
         for i, l in enumerate(plain_on.split("\n")):
             parts = l.split()
-            if len(parts) == 2 and parts[0] == "int" and parts[1].isdigit() and int(parts[1]) in markers:
+            if len(parts) >= 2 and parts[0] in ("int", "pushint") and parts[1].isdigit() and int(parts[1]) in markers and \
+                    (len(parts) == 2 or parts[2] == "//"):
                 marker_lines.setdefault(int(parts[1]), []).append(i)
         for ann in case["annotate"]:
             r = on[key].get(ann)
@@ -436,7 +443,10 @@ def run(tier):
             case = {"id": idx, "module": mod_a, "versions": versions, "annotate": ann, "size": size, "leading_blank": blank,
                     "recipe": prog, "line_comment": comment}
             meta[idx] = (case, files, rr.markers)
-            batches[idx % jobs].append({"id": idx, "module": mod_a, "versions": versions, "annotate": ann})
+            ckw = [None, {"assembly_type_track": False}, {"assembleConstants": True}, None,
+                   {"assembleConstants": True, "assembly_type_track": False}][idx % 5]
+            case["compile_kw"] = ckw
+            batches[idx % jobs].append({"id": idx, "module": mod_a, "versions": versions, "annotate": ann, "compile_kw": ckw})
         # routers: approval and clear-state program each come with their own map
         for k, cfg_r in enumerate(router_configs()):
             rid = 900000 + k
@@ -520,7 +530,8 @@ def replay(case):
         for fn, text in files.items():
             open(os.path.join(scratch, fn), "w").write(text)
         cj = os.path.join(scratch, "cases.json")
-        json.dump([{"id": c["id"], "module": c["module"], "versions": c["versions"], "annotate": c["annotate"]}], open(cj, "w"))
+        json.dump([{"id": c["id"], "module": c["module"], "versions": c["versions"], "annotate": c["annotate"],
+                    "compile_kw": c.get("compile_kw")}], open(cj, "w"))
         res = {}
         for gate in ("on", "off"):
             outp = os.path.join(scratch, "out_%s.json" % gate)
